@@ -1246,6 +1246,11 @@ class ContactHandler(Messenger, dbus.service.Object):
         Messenger.recv_sess_term(self, reason)
 
         # No further processing
+        self._tx_flush_pend_start()
+        self._check_sess_term()
+
+    def _tx_flush_pend_start(self):
+        ''' Report and drop all transfers which have not been started. '''
         while self._tx_pend_start:
             item = self._tx_pend_start.pop(0)
             self._logger.warning('Terminating and ignoring transfer %d', item.transfer_id)
@@ -1254,7 +1259,6 @@ class ContactHandler(Messenger, dbus.service.Object):
                 item.total_length or 0,
                 'session terminating'
             )
-        self._check_sess_term()
 
     def recv_xfer_data(self, transfer_id, flags, data, ext_items):
         Messenger.recv_xfer_data(self, transfer_id, flags, data, ext_items)
@@ -1492,6 +1496,10 @@ class ContactHandler(Messenger, dbus.service.Object):
                 return True
             if not self._tx_pend_start:
                 # nothing to do
+                return False
+            if self._in_term:
+                # no new transfers after SESS_TERM has been sent
+                self._tx_flush_pend_start()
                 return False
 
             self._tx_tmp = self._tx_pend_start.pop(0)
